@@ -20,6 +20,9 @@ type Ctx struct {
 	R    *report.Report
 	Tier string
 	Ix   *fold.InitIndex
+
+	cacheNF  []nfPath
+	cacheNFL *readerLayout
 }
 
 // Property describes one property check.
